@@ -77,6 +77,14 @@ type failure struct {
 
 // replayOne executes one behaviour on one configuration. Returns nil or the
 // first divergence between the real index and the spec state.
+// rowRecords collects, for upsidedown configurations, the KV rows after every
+// action (judged by spec/trace/JudgeUpsidedown.tla at the end of the run).
+var (
+	rowMu      sync.Mutex
+	rowRecords []any
+	rowOwner   []string
+)
+
 func replayOne(c *core.Ctx, cfg bx.Config, steps []Step) (*failure, error) {
 	dir := c.TempDir("c01")
 	defer os.RemoveAll(dir)
@@ -177,6 +185,27 @@ func replayOne(c *core.Ctx, cfg bx.Config, steps []Step) (*failure, error) {
 		if d := bx.Diff(bx.Expected(s.Docs, s.Internal), got); d != "" {
 			return fail(i, d, false), nil
 		}
+		if !cfg.Scorch && (s.Name == "single" || s.Name == "exec") {
+			rows, err := bx.UpsidedownRows(idx)
+			if err != nil {
+				return fail(i, "row dump failed: "+err.Error(), true), nil
+			}
+			if rows != nil {
+				live := [][]any{}
+				for _, id := range ids {
+					if v := s.Docs[id]; v != 0 {
+						live = append(live, []any{id, fmt.Sprintf("v%d", v)})
+					}
+				}
+				rows["live"] = live
+				rowMu.Lock()
+				if len(rowRecords) < 6000 {
+					rowRecords = append(rowRecords, rows)
+					rowOwner = append(rowOwner, fmt.Sprintf("%s after %v", cfg.Name, actionsOnly(steps[:i+1])))
+				}
+				rowMu.Unlock()
+			}
+		}
 	}
 	return nil, nil
 }
@@ -266,6 +295,18 @@ func run(c *core.Ctx) error {
 	close(jobs)
 	wg.Wait()
 	c.Traces(len(behs))
+	// row level of upsidedown (Upsidedown.tla): dictionary counts, back index
+	// rows, cached count, no stale rows of older versions
+	if _, ok := c.ModelCheck("Upsidedown", "Upsidedown_mc.cfg", core.Workers(4), core.Timeout(10*time.Minute)); ok && len(rowRecords) > 0 {
+		bad, err := c.JudgeRecords("JudgeUpsidedown", "JudgeUpsidedown.cfg", rowRecords, 5, core.Timeout(15*time.Minute), core.Heap(6000))
+		if err != nil {
+			return err
+		}
+		c.Extra("upsidedown_row_dumps_judged", len(rowRecords))
+		for i, inv := range bad {
+			c.Violation("c01/upsidedown-rows/"+inv, fmt.Sprintf("%s violated by the KV rows of %s", inv, rowOwner[i]), map[string]any{"where": rowOwner[i], "rows": rowRecords[i]})
+		}
+	}
 	c.Extra("configurations", func() []string {
 		var n []string
 		for _, x := range cfgs {
